@@ -596,10 +596,10 @@ def main():
 
     def triage(steps, what):
         """make the failing case self-contained: find out whether it needs earlier calls of this process"""
-        if counters["triaged"] >= 14:
+        if counters["triaged"] >= 14 or time.time() - t0 > 2 * budget:
             return None
         counters["triaged"] += 1
-        hist = list(history)
+        hist = list(history)[-512:]  # replaying the whole call history of the process for every candidate prefix costs minutes
         N = steps[-1]["R"] * steps[-1]["C"]
         same_n = first_by_n.get(N, []) + [st for st in last_by_n.get(N, []) if st not in first_by_n.get(N, [])]
         for pre in ([], hist[-1:], hist[-2:], hist[-4:], same_n, hist[-16:], hist[-64:], hist, same_n + hist):
